@@ -15,7 +15,7 @@ SMALL_LIMS = [(40, 60, 6, 0), (60, 40, 8, 0), (30, 30, 5, 0), (8190, 8190, 128, 
 
 
 def build_model():
-    return fw.ocaml_model("HTTP", ["Model/Http.vo"])
+    return fw.ocaml_model("HTTP", ["Model/Http.vo", "Model/HttpSpec.vo"])
 
 
 # ----------------------------------------------------------------------------
@@ -44,6 +44,7 @@ def impl_run(segs, lim):
                           auto_decompress=False, max_msg_queue_size=mq)
     got = []
     outcome = "OK:-"
+    left = b""
     for i, seg in enumerate(segs):
         try:
             msgs, upgraded, tail = p.feed_data(bytes(seg))
@@ -52,7 +53,8 @@ def impl_run(segs, lim):
             outcome = (f"ERR:{nm}@{i}" if nm in ERR_CLASSES else f"ESCAPE:{nm}@{i}")
             break
         got.extend(msgs)
-        outcome = "OK:" + fw.hexs(tail)
+        left += tail          # bytes handed back for the upgraded protocol, over all calls
+        outcome = "OK:" + fw.hexs(left)
     out = []
     for m, payload in got:
         body = payload is not EMPTY_PAYLOAD
@@ -389,4 +391,185 @@ def segmentations(rng, s, quick=True):
         k = rng.randint(2, min(8, n))
         pts = sorted(set(rng.randint(1, n - 1) for _ in range(k)))
         out.append([s[a:b] for a, b in zip([0] + pts, pts + [n])])
+    return out
+
+
+# ----------------------------------------------------------------------------
+# response parser (lax mode; not modelled in Coq: used for implementation self-consistency oracles)
+
+def impl_run_response(segs, lim, method="GET", read_until_eof=True, eof=True):
+    # the client builds its parser through ResponseHandler.set_response_params, which never passes
+    # `method`: HEAD is expressed as response_with_body=False.  We do the same.
+    from aiohttp.http_parser import HttpResponseParser
+    from aiohttp.streams import EMPTY_PAYLOAD
+    ml, mf, mh, _ = lim
+    proto = mock.Mock()
+    proto._reading_paused = False
+    p = HttpResponseParser(proto, loop(), 2 ** 22, max_line_size=ml, max_field_size=mf, max_headers=mh,
+                           auto_decompress=False, read_until_eof=read_until_eof,
+                           response_with_body=method != "HEAD")
+    got = []
+    outcome = "OK:-"
+    left = b""
+    for i, seg in enumerate(segs):
+        try:
+            msgs, upgraded, tail = p.feed_data(bytes(seg))
+        except Exception as e:  # noqa
+            nm = type(e).__name__
+            outcome = (f"ERR:{nm}@{i}" if nm in ERR_CLASSES else f"ESCAPE:{nm}@{i}")
+            break
+        got.extend(msgs)
+        left += tail
+        outcome = "OK:" + fw.hexs(left)
+    def snap():
+        pp = p._payload_parser
+        return {"up": bool(p._upgraded), "tail": len(p._tail), "lines": len(p._lines),
+                "linebytes": sum(len(x) for x in p._lines),
+                "ctail": len(pp._chunk_tail) if pp is not None else 0,
+                "tlines": len(pp._trailer_lines) if pp is not None else 0}
+    state = snap()          # retained bytes are measured before end-of-stream processing
+    if outcome.startswith("OK") and eof:
+        try:
+            p.feed_eof()
+        except Exception as e:  # noqa
+            nm = type(e).__name__
+            outcome = (f"EOFERR:{nm}" if nm in ERR_CLASSES else f"ESCAPE:{nm}@eof")
+    out = []
+    for m, payload in got:
+        body = payload is not EMPTY_PAYLOAD
+        data = b"".join(bytes(x) for x in getattr(payload, "_buffer", ())) if body else b""
+        exc = payload.exception() if body else None
+        out.append({"code": m.code, "reason": m.reason, "version": f"{m.version.major}.{m.version.minor}",
+                    "headers": [(bytes(k).hex(), bytes(v).hex()) for k, v in m.raw_headers],
+                    "close": bool(m.should_close), "chunked": bool(m.chunked), "upgrade": bool(m.upgrade),
+                    "compression": m.compression, "body": body, "data": data.hex(),
+                    "splits": list(getattr(payload, "_http_chunk_splits", None) or []) if body else [],
+                    "eof": bool(payload.is_eof()) if body else True,
+                    "exc": type(exc).__name__ if exc is not None else None})
+    return {"outcome": outcome, "msgs": out, "state": state}
+
+
+def gen_response(rng):
+    version = rng.choice([b"HTTP/1.1"] * 6 + [b"HTTP/1.0", b"HTTP/2.0"])
+    code = rng.choice([b"200", b"200", b"201", b"204", b"304", b"404", b"500", b"100", b"101", b"99", b"2000", b"abc"])
+    reason = rng.choice([b"OK", b"", b"Not Found", b"Weird  Reason", b"\xc3\xa9"])
+    kind = rng.choice(["none", "len", "len", "chunked", "chunked", "eof", "len0"])
+    hs, body = [], b""
+    if kind == "len":
+        body = rand_bytes(rng, rng.randint(1, 40))
+        hs.append((b"Content-Length", str(len(body)).encode()))
+    elif kind == "len0":
+        hs.append((b"Content-Length", b"0"))
+    elif kind == "chunked":
+        pieces = [rand_bytes(rng, rng.randint(1, 20)) for _ in range(rng.randint(0, 4))]
+        body = chunked_body(rng, pieces, [(b"X-T", b"1")] if rng.random() < 0.3 else None, ext=rng.random() < 0.3)
+        hs.append((b"Transfer-Encoding", rng.choice([b"chunked", b"gzip, chunked"])))
+    elif kind == "eof":
+        body = rand_bytes(rng, rng.randint(0, 40))
+    for _ in range(rng.randint(0, 4)):
+        hs.append((rng.choice([b"Server", b"X-A", b"Content-Type", b"Set-Cookie", b"Connection"]),
+                   rng.choice([b"v", b"text/html", b"close", b"keep-alive", b"a=b; Path=/", b"z" * rng.randint(0, 70), b""])))
+    rng.shuffle(hs)
+    eol = b"\r\n" if rng.random() < 0.85 else b"\n"
+    head = version + b" " + code + (b" " + reason if reason or rng.random() < 0.5 else b"") + eol
+    for k, v in hs:
+        head += k + rng.choice([b": ", b":"]) + v + eol
+        if rng.random() < 0.05:
+            head += rng.choice([b" folded", b"\tfolded"]) + eol
+    return head + eol + body
+
+
+def gen_response_stream(rng):
+    s = gen_response(rng)
+    r = rng.random()
+    if r < 0.25:
+        s = mutate_bytes(rng, s)
+    elif r < 0.35:
+        s = s[: rng.randint(0, len(s))]
+    elif r < 0.45:
+        s = s.replace(b"\r\n", rng.choice([b"\r\r\n", b"\n", b"\r\n"]), rng.randint(1, 3))
+    return s
+
+
+def delivered_view(obs):
+    """What a caller has been given: per message the head fields and the body bytes so far."""
+    return [{k: m[k] for k in m if k not in ("eof", "exc")} for m in obs["msgs"]]
+
+
+def consistent(one, seg):
+    """Property C03 between the one-shot observable and a segmented one of the SAME stream.
+    Returns None if consistent, else a description.  Error classes may differ; early rejection is
+    judged by the caller (needs completions)."""
+    o1, o2 = one["outcome"], seg["outcome"]
+    ok1, ok2 = o1.startswith("OK"), o2.startswith("OK")
+    if ok1 and ok2:
+        if one["msgs"] != seg["msgs"]:
+            return "both accepted but the delivered messages differ"
+        if o1 != o2:
+            return "both accepted but the unconsumed (upgraded) bytes differ"
+        if one["state"] != seg["state"]:
+            return "both accepted but the retained parser state differs"
+        return None
+    if o1.startswith("ESCAPE") or o2.startswith("ESCAPE"):
+        return None     # C10's subject; reported there
+    if ok2 and not ok1:
+        return f"rejected one-shot ({o1}) but accepted when split"
+    if ok1 and not ok2:
+        return "early"   # caller decides with completions
+    return None
+
+
+def limit_edge_streams(rng, lim):
+    """Requests in which one line approaches its limit from below/above by one byte, in every syntactic
+    position.  Yields (stream, position, delta, cuts) with cuts = read boundaries around that line's CRLF."""
+    ml, mf, mh, _ = lim
+    out = []
+    for pos in ("request-line", "field", "field-name", "chunk-size", "chunk-ext", "trailer", "header-count", "trailer-count"):
+        for delta in (-1, 0, 1):
+            pre = b""
+            if rng.random() < 0.3:
+                pre = b"GET /p HTTP/1.1\r\nHost: p\r\n\r\n"          # pipelined predecessor
+            if pos == "request-line":
+                base = b"GET / HTTP/1.1"
+                n = ml + delta
+                line = b"GET /" + b"a" * max(0, n - len(base)) + b" HTTP/1.1"
+                s = line + b"\r\nHost: x\r\n\r\n"
+                mark = len(pre) + len(line)
+            elif pos in ("field", "field-name"):
+                n = mf + delta
+                if pos == "field":
+                    line = b"X-L: " + b"v" * max(0, n - 5)
+                else:
+                    line = b"X" * max(1, n - 3) + b": v"
+                s = b"GET / HTTP/1.1\r\nHost: x\r\n" + line + b"\r\n\r\n"
+                mark = len(pre) + len(b"GET / HTTP/1.1\r\nHost: x\r\n") + len(line)
+            elif pos in ("chunk-size", "chunk-ext"):
+                n = ml + delta
+                if pos == "chunk-size":
+                    line = b"0" * max(0, n - 1) + b"3"
+                else:
+                    line = b"3;" + b"e" * max(0, n - 2)
+                head = b"POST / HTTP/1.1\r\nHost: x\r\nTransfer-Encoding: chunked\r\n\r\n"
+                s = head + line + b"\r\nabc\r\n0\r\n\r\n"
+                mark = len(pre) + len(head) + len(line)
+            elif pos == "trailer":
+                n = mf + delta
+                line = b"X-T: " + b"t" * max(0, n - 5)
+                head = b"POST / HTTP/1.1\r\nHost: x\r\nTransfer-Encoding: chunked\r\n\r\n3\r\nabc\r\n0\r\n"
+                s = head + line + b"\r\n\r\n"
+                mark = len(pre) + len(head) + len(line)
+            elif pos == "header-count":
+                k = mh + delta - 2          # request line + k fields + Host + empty line
+                s = b"GET / HTTP/1.1\r\nHost: x\r\n" + b"".join(b"X-%d: v\r\n" % i for i in range(max(0, k - 1))) + b"\r\n"
+                mark = len(pre) + len(s) - 2
+            else:
+                k = mh + delta - 5          # lines used by the head: 4 (incl. empty) ; trailers k + empty
+                head = b"POST / HTTP/1.1\r\nHost: x\r\nTransfer-Encoding: chunked\r\n\r\n0\r\n"
+                s = head + b"".join(b"T-%d: v\r\n" % i for i in range(max(0, k))) + b"\r\n"
+                mark = len(pre) + len(s) - 2
+            s = pre + s
+            if rng.random() < 0.3:
+                s += b"GET /next HTTP/1.1\r\nHost: n\r\n\r\n"
+            cuts = sorted({c for c in (mark - 1, mark, mark + 1, mark + 2, len(pre), len(pre) + 1) if 0 < c < len(s)})
+            out.append((s, pos, delta, cuts))
     return out
